@@ -141,3 +141,51 @@ Theorem C01_documented_partial :
                w_infos w' = ∅.
 Proof. exact c01_documented. Qed.
 Print Assumptions C01_documented_partial.
+
+(** Regression for the repaired finding D23 (/repo commit 4f3c995).  Tree
+    { /bk, /f = "orig", /other = "precious" } in the documented layering
+    (base hides /bk, backup is PrefixFS(/bk)).  Remove(/f) backs /f up;
+    Symlink("other", /f) puts a link to /other in its place.  Before the
+    repair Rollback restored /f *through* that link: [restoreFile]'s
+    OpenFile(O_TRUNC) overwrote /other - an entry the transaction never named -
+    with "orig", the link stayed, and Rollback returned nil.  Now the link is
+    removed first ([remove_if_symlink]): Rollback returns nil, /f is the
+    original regular file again and /other is untouched. *)
+Definition w23 : world :=
+  init_file (init_file (init_dir (init_dir init_world [47] 493 0 0 1) [47;98;107] 493 0 0 2)
+                       [47;102] 420 0 0 5 [111;114;105;103])
+            [47;111;116;104;101;114] 420 0 0 6 [112;114;101;99;105;111;117;115].
+Example C01_fixed_D23 :
+  let '(rs, w') := run_history c14 [ORemove [47;102]; OSymlink [111;116;104;101;114] [47;102]; ORollback] w23 in
+  rs = [MOk ObUnit; MOk ObUnit; MOk ObUnit] /\
+  st_fs (w_st w') !! [[102]] = Some (File (mkMeta 420 0 0 (Preset 5)) [111;114;105;103]) /\
+  st_fs (w_st w') !! [[102]] = st_fs (w_st w23) !! [[102]] /\
+  st_fs (w_st w') !! [[111;116;104;101;114]] = st_fs (w_st w23) !! [[111;116;104;101;114]] /\
+  st_fs (w_st w') !! [[111;116;104;101;114]] =
+    Some (File (mkMeta 420 0 0 (Preset 6)) [112;114;101;99;105;111;117;115]).
+Proof. vm_compute. repeat split. Qed.
+Print Assumptions C01_fixed_D23.
+
+(* ------------------------------------------------------------------ *)
+(** ** the layering of the constructors New / NewWithFS
+    [ncfg q = mkConfig None [q] q]: HiddenFS directly over the OS filesystem
+    (no PrefixFS), the backup location [q] - an absolute cleaned path other
+    than "/" - hidden from the base and the root of the backup filesystem.
+    The base view [V0H q] (Spec/ViewRoot.v) is the WHOLE filesystem except the
+    location and what lies below it; it shows link targets as stored ([tn_0],
+    the identity: without PrefixFS nothing cleans them).  The root "/" is a
+    proper ancestor of the location ([anc_h q]): it cannot be removed (EBUSY)
+    or renamed.  Proofs/LawsNew.v. *)
+From BFS Require Import Spec.ViewHidden Spec.ViewRoot Proofs.LawsNew.
+
+Theorem C01_new_partial :
+  forall q, hidden_ok q ->
+  forall B0, all_small B0 ->
+  forall w0 ops w,
+    initial (V0H q) (Vp q) tn_0 clean (acc_0 q) (acc_p q) B0 w0 ->
+    good_run (cfg_base (ncfg q)) (cfg_backup (ncfg q)) (V0H q) w0 ops w ->
+    exists w', b_rollback (cfg_base (ncfg q)) (cfg_backup (ncfg q)) w = (MOk tt, w') /\
+               store_eqv (V0H q w') B0 /\ (forall p, p <> s_root -> Vp q w' !! p = None) /\
+               w_infos w' = ∅.
+Proof. exact c01_new. Qed.
+Print Assumptions C01_new_partial.
